@@ -116,6 +116,15 @@ func ListenTo(inPort drivers.In, recv func(msg Message, timestampms int32), opts
 	var typ, channel byte
 
 	var onMsg = func(data []byte, millisec int32) {
+		if len(data) == 0 {
+			return
+		}
+
+		// not every driver pads the (non sysex) message to three bytes
+		if len(data) < 3 && data[0] != 0xF0 {
+			data = append(append(make([]byte, 0, 3), data...), 0, 0)[:3]
+		}
+
 		status := data[0]
 
 		var msg Message
